@@ -330,7 +330,6 @@ impl SendRateComp {
                     }
                 } else {
                     // In slow start, but no feedback has been received.
-                    debug_assert!(self.nofeedback_idle == false);
 
                     // Halve send rate every RTO, subject to minimum
                     self.send_rate = (self.send_rate/2).max(MINIMUM_RATE);
